@@ -82,6 +82,7 @@ package composite
 // (strictly ascending output, duplicates in older sources skipped); from an invalid position it stays invalid.
 //@ func (*HierarchicalIterator).Next
 //@   requires SrcDistinct(h) && lockstate(h.mu) == 0 && (h.valid ==> h.key != nil)
+//@   ensures[C05] SrcDistinct(h) && (h.valid ==> h.key != nil)
 //@   ensures[C05] !old(h.valid) ==> !result && !h.valid
 //@   ensures[C05] result == h.valid
 //@   ensures[C05,T] old(h.valid) && h.valid ==> MergedAt(h)
@@ -94,6 +95,7 @@ package composite
 // SeekToFirst: every source at its first entry; the merge on the overall minimum.
 //@ func (*HierarchicalIterator).SeekToFirst
 //@   requires SrcDistinct(h) && lockstate(h.mu) == 0
+//@   ensures[C05] SrcDistinct(h) && (h.valid ==> h.key != nil)
 //@   ensures[C05] forall s int :: 0 <= s && s < len(h.iterators) ==> h.iterators[s].pos == 0
 //@   ensures[C05,T] h.valid ==> MergedAt(h)
 //@   ensures[C05] !h.valid ==> (forall s int :: 0 <= s && s < len(h.iterators) ==> !iterator.IterValid(h.iterators[s]))
